@@ -74,3 +74,13 @@ package query
 //@      (pkg.AllTargets()[k].HasAbsoluteSource(filename) ==> in(pkg.AllTargets()[k], changed))) && \
 //@      (forall t *core.BuildTarget :: old(in(t, changed)) ==> in(t, changed))
 //@   callsite FindRevdeps from_the_changed_set_to_the_given_depth [C24]: level != 0 && arg_depth == level && arg_targets == labels && arg_state == state
+
+// (somepath).somePath: the set of targets already explored is kept per DESTINATION (it records "no path from
+// here to target2"); keyed any other way a later search for another destination would be cut short.
+//@ func (somepath).somePath
+//@   requires s != nil && s.graph != nil && s.memo != nil
+//@   opt nopanic=off
+//@   opt inline=off
+//@   opt precall=off
+//@   callsite somePath explored_set_of_the_destination [C23]: in(target2, s.memo) && arg_seen == s.memo[target2] && \
+//@      arg_target1 == s.graph.TargetOrDie(target1) && arg_target2 == s.graph.TargetOrDie(target2)
